@@ -32,6 +32,13 @@ func runC14(c *Ctx) bool {
 		r := gen.New(c.Seed, 1401, uint64(j))
 		classes := []int{gen.ClassPlain, gen.ClassExt, gen.ClassBullet, gen.ClassUnicode}
 		f := gen.RandForest(r, []int{3, 6, 12}[j%3], r.Range(2, 5), classes, 0)
+		if j%16 == 5 {
+			// output larger than one / two 4096-byte buffers
+			f = gen.RandForest(r, 60, 4, []int{gen.ClassPlain}, 0)
+			for len(f.String()) < []int{5000, 9000}[(j/16)%2] {
+				f = append(f, gen.RandForest(r, 60, 4, []int{gen.ClassPlain}, 0)...)
+			}
+		}
 		c08Safe(f)
 		sp := gen.RandSpelling(r)
 		if !gen.CanHeading(f) || j%4 != 0 {
@@ -115,7 +122,9 @@ func evalC14(c *Ctx, cs *Case) {
 	sentinel := errors.New("reader-sentinel")
 	offsets := make([]int, 0, len(doc)+1)
 	stride := 1
-	if len(doc) > 220 {
+	if len(doc) > 2000 {
+		stride = len(doc)/40 + 1 // the large documents are there for the buffer boundaries on the writer side
+	} else if len(doc) > 220 {
 		stride = len(doc)/200 + 1
 	}
 	for k := 0; k <= len(doc); k += stride {
@@ -233,7 +242,26 @@ func evalC14(c *Ctx, cs *Case) {
 						refBlocks = model.DryRunBlocks(merged, model.DefaultBranch, []string{".gz"})
 					}
 				}
-				for i := 0; i < writes; i++ {
+				// every write index for ordinary output; for outputs with many writes the first, the
+				// last, those around the middle and a seeded dozen
+				indices := make([]int, 0, writes)
+				if writes <= 40 {
+					for i := 0; i < writes; i++ {
+						indices = append(indices, i)
+					}
+				} else {
+					pick := map[int]bool{0: true, 1: true, 2: true, writes / 2: true, writes/2 + 1: true, writes - 3: true, writes - 2: true, writes - 1: true}
+					rr := gen.New(cs.Seed, 14, uint64(writes))
+					for k := 0; k < 12; k++ {
+						pick[rr.Intn(writes)] = true
+					}
+					for i := 0; i < writes; i++ {
+						if pick[i] {
+							indices = append(indices, i)
+						}
+					}
+				}
+				for _, i := range indices {
 					for variant := 0; variant < 3; variant++ {
 						short, transient := variant == 1, variant == 2
 						cs.Entry = "Output" + fam + "[" + m.name + "]," + mode
